@@ -311,7 +311,42 @@ def expression_context(chk):
     ovf.module = lambda c=ovf: H.module(c.cid, c.text + "pub fn run() {}\n")
     ovf2 = BH.Case("ovg", None, "#[derive(::educe::Educe)]\n#[educe(Default)]\npub enum Ty {\n    #[educe(Default)]\n    V {\n        #[educe(Default(expression = 70000u16))]\n        a: u16,\n    },\n}\n", [], drive="", info={})
     ovf2.module = lambda c=ovf2: H.module(c.cid, c.text + "pub fn run() {}\n")
-    obs, dropped, crashed, _, _ = BH.execute("c08x", [c, ovf, ovf2])
+    # arithmetic on literals is an expression, not a literal: it is typed by the field (an alias of i64 here), nothing is
+    # converted; items inside a designated expression (the static of a counter macro) exist once, whoever evaluates it;
+    # a union's designated expression is evaluated once per call
+    ari_text = ("pub type Off = i64;\nmacro_rules! serial { () => {{ static N: ::core::sync::atomic::AtomicU32 = ::core::sync::atomic::AtomicU32::new(0); "
+                "N.fetch_add(1, ::core::sync::atomic::Ordering::SeqCst) + 1 }} }\n"
+                "#[derive(::educe::Educe)]\n#[educe(Default)]\npub struct Ar {\n    #[educe(Default(expression = 1 << 31))]\n    pub a: Off,\n"
+                "    #[educe(Default = !0 ^ (1 << 31))]\n    pub b: Off,\n    #[educe(Default(expr(-(1 << 40) + 5 * 3)))]\n    pub c: ::core::primitive::i64,\n}\n"
+                "#[derive(::educe::Educe)]\n#[educe(Default(expression = Se(serial!()), new))]\npub struct Se(pub u32);\n"
+                "#[derive(::educe::Educe)]\n#[educe(Default(expression = En::V(serial!()), new))]\npub enum En {\n    V(u32),\n    W,\n}\n"
+                "#[derive(::educe::Educe)]\n#[educe(Default(new))]\npub union Un {\n    #[educe(Default = %sseq(0, 7u8))]\n    pub a: u8,\n    pub b: u16,\n}\n" % RT)
+    ari_drive = ("        let a = <Ar as ::core::default::Default>::default();\n"
+                 "        let s = [<Se as ::core::default::Default>::default().0, Se::new().0, <Se as ::core::default::Default>::default().0, Se::new().0];\n"
+                 "        let e: Vec<u32> = [<En as ::core::default::Default>::default(), En::new(), <En as ::core::default::Default>::default()].iter().map(|x| match x { En::V(n) => *n, En::W => 0 }).collect();\n"
+                 "        %sbegin(); let u1 = <Un as ::core::default::Default>::default(); let u2 = Un::new(); let ua = unsafe { u1.a } as u32 + unsafe { u2.a } as u32;\n"
+                 "        %sobs(\"ari\", \"ari\", 0, -1, &format!(\"{} {} {} {:?} {:?} {}\", a.a, a.b, a.c, s, e, ua));" % (RT, RT))
+    ari = BH.Case("ari", None, ari_text, [], drive=ari_drive, info={})
+    ari.module = lambda c=ari: H.module(c.cid, c.text + "pub fn run() {\n    %sguarded(\"%s\", || {\n%s\n    });\n}\n" % (RT, c.cid, c.drive))
+    obs, dropped, crashed, _, _ = BH.execute("c08x", [c, ovf, ovf2, ari])
+    oa = obs.get("ari")
+    if "ari" in dropped:
+        d = dropped["ari"][0]
+        chk.violation("expression-context-does-not-compile", "designated expressions on aliased / macro-written values do not compile: %s\n%s"
+                      % (d.get("rendered") or d["message"], ari_text), {"case.rs": ari.module()})
+    elif oa is None or not oa.recs:
+        chk.inconc("expression-context-not-run")
+    else:
+        got = oa.recs[0][3][0]
+        evs = oa.recs[0][4]
+        want = "2147483648 -2147483649 -1099511627761 [1, 2, 3, 4] [1, 2, 3] 14"
+        chk.evaluations += 1
+        if got != want or evs.count("dx:0") != 2:
+            chk.violation("expression-evaluation", "designated expressions are not evaluated as written, once per call\nobserved: %s (events %s)\n"
+                          "expected: %s (two `dx:0` events for the two union values)\n%s" % (got, evs, want, ari_text), {"case.rs": ari.module()})
+        else:
+            chk.held("ari", True, 1)
+            chk.count("expression-context/evaluation")
     for neg in (ovf, ovf2):
         chk.evaluations += 1
         if neg.cid not in dropped:
